@@ -35,7 +35,16 @@ m = {
         "add_only": True,
     },
     "engines": [
-        {"name": "forksym+z3", "path": "vf/forksym.py", "kind_free_text": "path-forking symbolic execution of real Python code over z3 proxies", "serves_properties": sorted(R.CHECKS)},
+        {"name": "forksym+z3", "path": "vf/forksym.py", "kind_free_text": "path-forking symbolic execution of real Python code over z3 proxies (SymInt/SymBool/Name/SymDict); one solver verdict per structural path",
+         "serves_properties": sorted(p for p in R.CHECKS if p != "C13")},
+        {"name": "pandas/numpy model", "path": "vf/sym/pdshim.py", "kind_free_text": "symbolic stand-in for pandas/numpy that the REAL pandas_base.py executor (private copy of the current source, vf/sym/load.py) runs on; cells are z3 terms",
+         "serves_properties": [p for p in sorted(R.CHECKS) if R.CHECKS[p].get("engine", "").startswith("forksym+z3 over")]},
+        {"name": "SQL interpreter", "path": "vf/sym/sqlsym.py", "kind_free_text": "lexer/parser/symbolic interpreter for the SQL text emitted by the real to_sql (SQLite and PostgreSQL semantics), with the repository's SQLite user functions (vf/sym/udf.py)",
+         "serves_properties": ["C01", "C02", "C04", "C05", "C08", "C09", "C10", "C15", "C16", "C21", "C27"]},
+        {"name": "polars model", "path": "vf/sym/plshim.py", "kind_free_text": "symbolic stand-in for polars that the REAL polars_model.py executor runs on", "serves_properties": ["C03", "C05", "C17"]},
+        {"name": "reference semantics", "path": "vf/sym/refsem.py", "kind_free_text": "order-free z3 formulas for joins, groups, windows, rank, LOCF, unpivot written from the property statements", "serves_properties": ["C05", "C09", "C16", "C17", "C21", "C27"]},
+        {"name": "z3 (SMT equivalence of expression trees)", "path": "vf/checks/c13.py", "kind_free_text": "Term tree from the real parser vs CPython ast, QF_UFLRA", "serves_properties": ["C13"]},
+        {"name": "crosshair", "path": "vf/chrun.py", "kind_free_text": "CrossHair 0.0.110 contracts (vf/ch/) on the real quoting functions and data spaces", "serves_properties": ["C14", "C20"]},
     ],
     "checks": checks,
     "not_applicable": na,
